@@ -86,6 +86,10 @@ def load_spec_program(P):
                     P.functions[fi.qualname] = fi
                 elif isinstance(node, ast.Assign) and len(node.targets) == 1 and isinstance(node.targets[0], ast.Name):
                     mod.bindings[node.targets[0].id] = ('const', node.value)
+                elif isinstance(node, ast.Assign) and len(node.targets) == 1 and isinstance(node.targets[0], ast.Tuple) \
+                        and isinstance(node.value, ast.Tuple) and len(node.value.elts) == len(node.targets[0].elts):
+                    for t, v in zip(node.targets[0].elts, node.value.elts):
+                        mod.bindings[t.id] = ('const', v)
                 elif isinstance(node, ast.ImportFrom):
                     base = node.module or ''
                     for a in node.names:
